@@ -89,7 +89,7 @@ func main() {
 				}
 				sc.Replay(c, json.RawMessage(raw))
 			} else {
-				sc.Run(c)
+				sc.RunAll(prop, c)
 			}
 		}()
 		b, _ := json.MarshalIndent(c.Res, "", " ")
